@@ -34,7 +34,7 @@ META = {
     "assumptions": [],
     "level_text": "Static language inclusion (accepted keys -> decodable symbols) for all accepted tables, plus structural "
                   "checks of the alphabet builder.",
-    "level_note": "Clause-level; decoding of arbitrary sequences over the alphabet is delegated to C01/C08. Known finding F1 (A5).",
+    "level_note": "A6 re-runs the valence lemmas of C01 (V0-V7) for the 'obeys the table' clause. Clause-level; decoding of arbitrary sequences over the alphabet is delegated to C01/C08. Known finding F1 (A5).",
     "technique": "regular-language inclusion from predicate abstraction + partial evaluation of the alphabet builder + points-to",
 }
 
@@ -574,6 +574,15 @@ def run(ctx, rep):
     check_capacity_lookup(ctx, rep, eff, table_vars, "A3")
     # ---- A5
     check_fresh_return(ctx, eff, rep, getter, "A5", "alphabet")
+    # ---- A6: "... decodes to a molecule obeying the table": the valence lemmas of C01 (V0-V7: chain bonds, branch split, ring
+    # requests, ring formation clamps, bookkeeping, capacity) on the same tree -- the alphabet is sound only together with them
+    from sa.core import Report
+    from rules import C01
+    from rules.shared import import_obligations
+    sub = Report("C07")
+    C01.run(ctx, sub)
+    n6 = import_obligations(rep, sub, {"V%d" % i: "A6" for i in range(0, 8)})
+    rep.floor("A6", 20)
     rep.floor("A1", 2)
     rep.floor("A2", 2)
     rep.floor("A3", 4)
